@@ -121,6 +121,22 @@ CHECKS = {
 }
 
 
+# per-property modules lib/chk_*.py: each exposes REGISTER = {"Cxx": (fn(ck, tier, seed), level)}
+def _load_plugins():
+    import glob
+    import importlib
+    here = os.path.dirname(os.path.abspath(__file__))
+    for p in sorted(glob.glob(os.path.join(here, "chk_*.py"))):
+        mod = importlib.import_module(os.path.basename(p)[:-3])
+        CHECKS.update(getattr(mod, "REGISTER", {}))
+        TRACE_MODULE.update(getattr(mod, "TRACE_MODULE", {}))
+
+
+# trace specification used to re-validate a stored history (replay)
+TRACE_MODULE = {}
+_load_plugins()
+
+
 def run(pid, tier, seed):
     fn, level = CHECKS[pid]
     ck = Check(pid, tier, seed, level)
@@ -139,7 +155,7 @@ def replay(pid, path):
     with open(tmp, "w") as f:
         for ev in rp["history"]:
             f.write(json.dumps(ev) + "\n")
-    module = rp.get("module", "TraceManager")
+    module = rp.get("module") or TRACE_MODULE.get(pid, "TraceManager")
     r = vlib.validate_one(module, tmp, [pid])
     os.unlink(tmp)
     if r["tool_error"]:
